@@ -71,15 +71,19 @@ def cases_list(tier):
                 for m in range(len(METAS)):
                     for pr in range(len(PRE)):
                         if n >= 3 and (m in (1, 4)): continue
-                        out.append((seq, styles, bods, m, pr))
+                        out.append((seq, styles, bods, m, pr, 0))
+                        if n <= 2 and m in (0, 2): out.append((seq, styles, bods, m, pr, 1))        # the same document with CRLF line ends
     return out
 
 def make_case(cl):
     def case(idx):
-        seq, styles, bods, m, pr = cl[idx]
-        if m == 0 and pr == 0 and False: pass
+        seq, styles, bods, m, pr, crlf = cl[idx]
         secs = list(zip(seq, styles, bods))
         src, pieces, prenote = build(METAS[m], PRE[pr], secs)
+        meta_len = len(METAS[m])
+        if crlf:
+            x = lambda b: b.replace(b"\n", b"\r\n")
+            meta_len = len(x(METAS[m])); src = x(src); pieces = [(x(h), x(nn), t) for h, nn, t in pieces]; prenote = x(prenote) if prenote else prenote
         case_d = dict(src=src.decode("latin-1"))
         v = []
         opml = mmd.convert(src, mmd.EXT_DEFAULT, 9)
@@ -94,7 +98,7 @@ def make_case(cl):
             v.append(("opml:outline-titles", "outline items %r, expected %r" % (got_titles, exp_titles), case_d))
         else:
             recon = pre_note.encode("utf-8") + b"".join(h + n.encode("utf-8") for (h, _, _), (_, n) in zip(pieces, outs))
-            want = src[len(METAS[m]):]
+            want = src[meta_len:]
             if recon != want:
                 kind = "trailing-blank-lines" if recon.rstrip(b"\n") == want.rstrip(b"\n") else "content"
                 v.append(("opml:note-not-verbatim:" + kind, "heading lines + notes give %r, the source is %r" % (recon, want), case_d))
